@@ -804,9 +804,9 @@ Record ready (s : st) : Prop := {
   rd_inc : unpack FIXED (buf s) = UInc;
   rd_run : halted s = false }.
 
-Lemma run_halted evs : forall s, halted s = true -> run_from FIXED s evs = (s, []).
+Lemma run_halted segs : forall s, halted s = true -> run_from FIXED s (map Seg segs) = (s, []).
 Proof.
-  induction evs as [|e evs IH]; intros s H; [reflexivity|]. cbn [run_from]. unfold step. rewrite H.
+  induction segs as [|e evs IH]; intros s H; [reflexivity|]. cbn [map run_from]. unfold step. rewrite H.
   rewrite (IH s H). reflexivity.
 Qed.
 
@@ -854,7 +854,7 @@ Proof.
       intros AS HH. destruct R' as [_ _ _ RH]. pose proof (FL AS RH) as L1. apply (ledger_trans _ _ _ _ _ L1). apply IL; [apply L1|exact HH].
     + destruct DA as (A & C & D & E). rewrite E in TI. specialize (FR TI).
       destruct (feed (S (S (length c))) FIXED s c) as [s1 o1]. destruct FR as (F1 & F2 & F3 & F4 & F5 & FL).
-      cbn [negb] in F3. rewrite (run_halted _ s1 F3). cbn [fst snd]. rewrite app_nil_r.
+      cbn [negb] in F3. rewrite (run_halted segs s1 F3). cbn [fst snd]. rewrite app_nil_r.
       rewrite F1, C, D, A. split; [reflexivity|]. split; [exact F2|]. split; [intros W; rewrite W in CO; discriminate|].
       split; [auto|]. intros _ HH. rewrite F3 in HH. discriminate.
 Qed.
@@ -956,10 +956,27 @@ Proof.
   destruct (feed k FIXED s1 (drop n chunk)) as [s2 o2]. destruct IH as [A B]. split; [exact A|]. apply Forall_app; auto.
 Qed.
 
+Lemma boot_with_inv mem n : len mem = RECVBUF ->
+  let '(s', o) := boot_with FIXED mem n in inv s' /\ Forall out_ok o.
+Proof.
+  intros L. unfold boot_with.
+  assert (I0 : inv {| buf := []; stale := mem;
+               mq := [{| ect := CT_CONNECT; epid := 0; esz := n; esent := false; eacked := false |}]; halted := false |}).
+  { pose proof (cf_recvbuf_lo consts_ok). constructor; cbn [buf stale]; [constructor|change (len (@nil Z)) with 0; lia|change (len (@nil Z)) with 0; lia]. }
+  pose proof (sync_inv _ I0) as SI. destruct (sync FIXED _) as [s1 o1]. destruct SI as (S1 & S2 & _).
+  split; [exact S1|]. constructor; [exact I|exact S2].
+Qed.
+
 Lemma step_inv s e : inv s -> ev_ok e -> let '(s', o) := step FIXED s e in inv s' /\ Forall out_ok o.
 Proof.
-  intros I OK. unfold step. destruct (halted s); [split; [exact I|constructor]|].
-  destruct e as [n|c| |pid sz| |pid sz]; cbn [fx_recv FIXED].
+  intros I OK. unfold step.
+  assert (RL : forall n, let '(s', o) := (let '(s1, o1) := boot_with FIXED (buf s ++ stale s) n in (s1, (if halted s then [] else [Reconnect]) ++ o1)) in
+                         inv s' /\ Forall out_ok o).
+  { intros n. pose proof (boot_with_inv (buf s ++ stale s) n ltac:(rewrite len_app; apply I)) as B.
+    destruct (boot_with FIXED (buf s ++ stale s) n) as [s1 o1]. destruct B as [B1 B2]. split; [exact B1|].
+    apply Forall_app. split; [destruct (halted s); repeat constructor|exact B2]. }
+  destruct e as [n|c| |pid sz| |pid sz|n]; try exact (RL n);
+  (destruct (halted s); [split; [exact I|constructor]|]); cbn [fx_recv FIXED].
   - split; [exact I|constructor].
   - apply feed_inv; assumption.
   - pose proof (sync_inv s I) as SI. destruct (sync FIXED s) as [s1 o1]. destruct SI as (S1 & S2 & S3).
@@ -985,14 +1002,12 @@ Proof. intros; unfold len, zeros. rewrite repeat_length. lia. Qed.
 
 Theorem C16_safe_thm : forall evs, Forall ev_ok evs -> Forall out_ok (run FIXED evs).
 Proof.
-  intros evs OK. unfold run. destruct evs as [|e r]; [constructor|]. destruct e as [n|c| |pid sz| |pid sz]; [|constructor..].
+  intros evs OK. unfold run. destruct evs as [|e r]; [constructor|]. destruct e as [n|c| |pid sz| |pid sz|n]; [|constructor..].
   inversion OK; subst. unfold boot.
-  assert (I0 : inv {| buf := []; stale := zeros RECVBUF;
-               mq := [{| ect := CT_CONNECT; epid := 0; esz := n; esent := false; eacked := false |}]; halted := false |}).
-  { pose proof (cf_recvbuf_lo consts_ok). constructor; cbn [buf stale]; [constructor|rewrite len_nil; lia|rewrite len_nil, len_zeros; lia]. }
-  pose proof (sync_inv _ I0) as SI. destruct (sync FIXED _) as [s1 o1]. destruct SI as (S1 & S2 & _).
-  pose proof (run_from_inv r s1 S1 ltac:(assumption)) as RI. destruct (run_from FIXED s1 r) as [s2 o2]. destruct RI.
-  cbn [snd]. apply Forall_app. split; [constructor; [exact I|exact S2]|assumption].
+  pose proof (boot_with_inv (zeros RECVBUF) n ltac:(apply len_zeros; pose proof (cf_recvbuf_lo consts_ok); lia)) as B.
+  destruct (boot_with FIXED (zeros RECVBUF) n) as [s1 o1]. destruct B as [B1 B2].
+  pose proof (run_from_inv r s1 B1 ltac:(assumption)) as RI. destruct (run_from FIXED s1 r) as [s2 o2]. destruct RI.
+  cbn [snd]. apply Forall_app. split; assumption.
 Qed.
 
 (* ------------------------------------------------------------------------------------------ *)
@@ -1621,4 +1636,20 @@ Proof.
   intros s segs1 segs2 k R O1 O2 E RM K L. apply C16_segmentation_independent_thm; auto.
   apply (C16_room_no_compaction_thm _ _ k); auto. apply bytes_ok_app. split; [apply R|].
   clear - O1. induction O1; cbn [concat]; [constructor|apply bytes_ok_app; auto].
+Qed.
+
+(* ------------------------------------------------------------------------------------------ *)
+(* reconnect: every new session starts from a rewound receive window and an empty queue, whatever the old session left *)
+Theorem C16_reconnect_fresh_thm : forall s n,
+  let '(s', o) := step FIXED s (Relink n) in
+  ready s' /\ buf s' = [] /\ all_sent (mq s') /\
+  mq s' = [{| ect := CT_CONNECT; epid := 0; esz := n; esent := true; eacked := false |}] /\
+  o = (if halted s then [] else [Reconnect]) ++ [Boot n; Sent CT_CONNECT []].
+Proof.
+  intros s n. cbn [step]. unfold boot_with, sync. cbn [buf mq length].
+  change (drain 1 FIXED ?q []) with (parse_stream q []). rewrite parse_empty. cbn [d_stop d_q d_rest d_out d_moved app].
+  unfold send. cbn [map filter unsent eacked esent negb andb set_sent ect epid esz app].
+  pose proof (cf_recvbuf_lo consts_ok).
+  split; [constructor; cbn [buf halted]; [constructor|change (len (@nil Z)) with 0; lia|reflexivity|reflexivity]|].
+  split; [reflexivity|]. split; [reflexivity|]. split; [reflexivity|]. reflexivity.
 Qed.
